@@ -42,10 +42,30 @@ def cov_case(rng):
   with warnings.catch_warnings():
     warnings.simplefilter('ignore')
     try:
-      ev['L'] = dym(gen.Covariance().fit(X.copy()).components_)
+      est, ev['how'] = fit_through(rng, gen.Covariance, X)
+      ev['L'] = dym(est.components_)
     except Exception as e:
       ev['exc'] = type(e).__name__
   return ev
+
+
+def fit_through(rng, cls_, X, rest=(), **opts):
+  """fit on X in one of the documented ways of supplying data: the array itself, or indices into a preprocessor - of a
+  fresh estimator, or of one that was fitted before on OTHER data through another preprocessor array"""
+  how = str(rng.choice(['formed', 'formed', 'indices', 'indices_after_other']))
+  if how == 'formed':
+    return cls_(**opts).fit(X.copy(), *[np.array(r).copy() for r in rest]), how
+  n = len(X)
+  if how == 'indices':
+    return cls_(preprocessor=X.copy(), **opts).fit(np.arange(n), *[np.array(r).copy() for r in rest]), how
+  other = X[::-1] * 3.0 + 1.0
+  est = cls_(preprocessor=other, **opts)
+  try:
+    est.fit(np.arange(n), *[np.array(r).copy() for r in rest])
+  except Exception:
+    pass
+  est.set_params(preprocessor=X.copy())
+  return est.fit(np.arange(n), *[np.array(r).copy() for r in rest]), how
 
 
 def rca_case(rng):
@@ -62,7 +82,7 @@ def rca_case(rng):
   with warnings.catch_warnings():
     warnings.simplefilter('ignore')
     try:
-      est = gen.RCA(n_components=n_comp).fit(X.copy(), ch.copy())      # (copies: the witnesses below need the pristine input)
+      est, ev['how'] = fit_through(rng, gen.RCA, X, (ch,), n_components=n_comp)      # (copies: the witnesses below need the pristine input)
       ev['L'] = dym(est.components_)
       # witness: generalised eigen-decomposition C_w v = lam C_t v (ascending), normalised V^T C_t V = I
       m = ch != -1
